@@ -161,6 +161,14 @@ def format_one(sp, arg):
     if c == "s":
         s = arg if p is None else arg[:p]
         return pad(f, w, b"", s, False)
+    if c == "S":
+        # the library's string conversion (valid UTF-8 argument): at most `precision` bytes, whole code points only; the
+        # field width counts code points
+        b = arg if p is None else arg[:p]
+        txt = b.decode("utf-8", errors="ignore")          # an incomplete last code point is dropped
+        body = txt.encode("utf-8")
+        fill = b" " * max(0, (w or 0) - len(txt))
+        return body + fill if "-" in f else fill + body
     if c == "p":
         v = arg & ((1 << 64) - 1)
         body = b"(nil)" if v == 0 else b"0x%x" % v
